@@ -41,7 +41,9 @@ KwLeaves == { S(KwStream, TRUE), N(KwStream), S(KwEndstream, TRUE), N(KwEndstrea
               S(<<82>>, TRUE), N(<<82>>), S(<<111,98,106>>, TRUE), N(<<111,98,106>>), N(<<110,117,108,108>>), S(<<110,117,108,108>>, TRUE),
               N(<<102,97,108,115,101>>), S(<<120,114,101,102>>, TRUE), N(<<116,114,97,105,108,101,114>>), S(<<115,116,97,114,116,120,114,101,102>>, TRUE) }
 NameLeaves == { N(<<>>), N(<<65>>), N(<<65,32,66>>), N(<<35>>), N(<<65,47,66>>), N(<<255>>), N(<<116,114,117,101>>),
-                N(<<70,49>>), N(<<40>>), N(<<37>>), N(<<65,46,66,45,49>>) }
+                N(<<70,49>>), N(<<40>>), N(<<37>>), N(<<65,46,66,45,49>>),
+                \* a number sign INSIDE the name with hex-looking bytes behind it (its escape #23 must not start another escape)
+                N(<<65,35,52,49>>), N(<<35,35>>), N(<<35,120,121,122>>), N(<<65,35,50,51,66>>) }
 LeavesFull == {K("null"), K("true"), K("false"), [k |-> "ref", n |-> 12, g |-> 0]}
               \cup IntLeaves \cup RealLeaves \cup LongNumLeaves \cup StrLeaves \cup NameLeaves \cup KwLeaves
 \* reduced alphabet for the deeper exhaustive runs: one or two of each class
